@@ -850,10 +850,33 @@ def stress_phase(ctx, budget_s):
     return n
 
 
-def blocking_get_case(ctx, nconsumers, nmsgs):
+class ConsumerDelays:
+    """LINE callback (installed on the queue's module): seeded pauses of up to a few milliseconds in the consumer threads
+    only, on the lines of get() - a consumer may be held between any two statements of its get() while the producer and
+    the other consumers run."""
+
+    def __init__(self, seed):
+        self.rng = random.Random(seed)
+        self.n = 0
+
+    def _line_cb(self, code, line):
+        import threading as _th
+        import time as _t
+        if _th.current_thread().name.startswith('vmon-consumer') and code.co_name == 'get':
+            r = self.rng.random()
+            if r < 0.5:
+                self.n += 1
+                _t.sleep(r * 0.008)
+        return None
+
+
+def blocking_get_case(ctx, nconsumers, nmsgs, delays_seed=None):
     """Real threads blocked in ParserQueue.get(): one put_bytes() call that completes several
     messages must wake enough of them.  Verdict by state, not by time: a consumer still blocked
-    while a message sits in the queue (10 s after the call) is a lost wake-up."""
+    while a message sits in the queue (10 s after the call) is a lost wake-up.  With delays_seed the consumers
+    are paused at random between the statements of get() (ConsumerDelays), so that the producer's call lands
+    inside a consumer's get() as well as before it.  Public API only: the queue is whatever ParserQueue is."""
+    import sys as _sys
     import threading as _th
     import time as _t
     q = ParserQueue()
@@ -871,20 +894,44 @@ def blocking_get_case(ctx, nconsumers, nmsgs):
             return
         with lock:
             got.append(m)
-    ths = [_th.Thread(target=consumer, daemon=True) for _ in range(nconsumers)]
-    for t in ths:
-        t.start()
-    t_end = _t.time() + 5
-    while _t.time() < t_end and len(getattr(q._queue.not_empty, '_waiters', ())) < nconsumers:
-        _t.sleep(0.001)
-    msgs = [make_msg(0, i, i % 3) for i in range(nmsgs)]
-    q.put_bytes([b for m in msgs for b in m.bytes()])
-    t_end = _t.time() + 10
-    while _t.time() < t_end and len(got) < min(nconsumers, nmsgs):
-        _t.sleep(0.002)
-    case = {'kind': 'blocking-get', 'consumers': nconsumers, 'messages': nmsgs}
+
+    def inside_get(th):
+        fr = _sys._current_frames().get(th.ident)
+        while fr is not None:
+            if fr.f_code.co_name == 'get' and fr.f_code.co_filename.endswith('_parser_queue.py'):
+                return True
+            fr = fr.f_back
+        return False
+    inj = None
+    if delays_seed is not None:
+        inj = ConsumerDelays(delays_seed)
+        sched.install(codes())
+        sched.CURRENT = inj
+    try:
+        ths = [_th.Thread(target=consumer, daemon=True, name=f'vmon-consumer-{i}') for i in range(nconsumers)]
+        for t in ths:
+            t.start()
+        t_end = _t.time() + 5
+        while _t.time() < t_end and not all(inside_get(t) for t in ths):
+            _t.sleep(0.001)
+        if delays_seed is None:
+            _t.sleep(0.02)          # (inside get(), and by now waiting there)
+        msgs = [make_msg(0, i, i % 3) for i in range(nmsgs)]
+        if delays_seed is not None and nmsgs > 1 and random.Random(delays_seed).random() < 0.5:
+            for m in msgs:
+                q.put_bytes(m.bytes())          # one call per message
+        else:
+            q.put_bytes([b for m in msgs for b in m.bytes()])
+        t_end = _t.time() + 10
+        while _t.time() < t_end and len(got) + len(errors) < min(nconsumers, nmsgs):
+            _t.sleep(0.002)
+    finally:
+        if inj is not None:
+            sched.CURRENT = None
+    case = {'kind': 'blocking-get', 'consumers': nconsumers, 'messages': nmsgs, 'delays_seed': delays_seed}
     blocked = sum(1 for t in ths if t.is_alive())
-    pending = q._queue.qsize()
+    left = list(q.iterpoll())
+    pending = len(left)
     want_blocked = max(0, nconsumers - nmsgs)
     ctx.check('no empty answer while certainly queued', not (blocked > want_blocked and pending > 0),
               'parserqueue:get-blocked-with-message-pending', case, {'blocked_consumers': blocked, 'pending': pending})
@@ -892,7 +939,7 @@ def blocking_get_case(ctx, nconsumers, nmsgs):
     ctx.check('no empty answer while certainly queued', len(got) + len(errors) >= min(nconsumers, nmsgs) or blocked > want_blocked,
               'parserqueue:blocking-get-returned-nothing', case, {'received_by_blocked_consumers': len(got), 'messages': nmsgs})
     ctx.check('exactly once (nothing lost, duplicated, invented)',
-              sorted([m.hex() for m in got] + [m.hex() for m in q.iterpoll()]) == sorted(m.hex() for m in msgs)
+              sorted([m.hex() for m in got] + [m.hex() for m in left]) == sorted(m.hex() for m in msgs)
               if blocked == want_blocked else True, 'parserqueue:get-lost', case, len(got))
     for _ in range(blocked):
         q.put(None)            # release the remaining consumers
@@ -1075,6 +1122,11 @@ def run(ctx):
         for nc, nm in ((2, 2), (2, 3), (3, 2), (1, 1), (3, 5)):
             blocking_get_case(ctx, nc, nm)
             ctx.nontrivial(('blocking-get', nc, nm))
+    for j in range(6 if ctx.tier == 'quick' else 200):
+        nc, nm = ((2, 2), (2, 3), (3, 3), (3, 2))[j % 4]
+        blocking_get_case(ctx, nc, nm, delays_seed=f'{ctx.seed}:{sh}:bg{j}')
+        ctx.nontrivial(('blocking-get-delays', sh, j))
+    sched.uninstall()
     nstress = 0
     if sh == 2 % N:
         k_ = helper_argument_cases(ctx)
@@ -1108,7 +1160,11 @@ def replay(ctx, case):
         helper_argument_cases(ctx)
         return
     if case.get('kind') == 'blocking-get':
-        blocking_get_case(ctx, case['consumers'], case['messages'])
+        for _ in range(1 if case.get('delays_seed') is None else 20):       # (pauses are seeded, the OS scheduler is not)
+            blocking_get_case(ctx, case['consumers'], case['messages'], case.get('delays_seed'))
+            if ctx.violations:
+                break
+        sched.uninstall()
         return
     prog_cls = PROGRAMS[case['program']]
     if case.get('kind') == 'stress':
